@@ -315,6 +315,18 @@ pub fn map_family(level: u32) -> Vec<Script> {
             }
         }
     }
+    // keys of different types that print alike: the string "1" and the number 1 (and a third, plain key)
+    for (cn, c) in [
+        ("canon-scalar", seq(canon("A", "%m", "sc"), call("B", "obs", vec![var("sc")], sc("o")))),
+        ("canonmap-obs", seq(canon("A", "%m", "#%c"), call("B", "obs", vec![Arg::CanonMap("#%c".into())], sc("o")))),
+        ("canonmap-key", seq(canon("A", "%m", "#%c"), call("B", "obs", vec![Arg::CanonMapLens("#%c".into(), ".[1]".into())], sc("o")))),
+    ] {
+        let ws = seq(
+            seq(call("A", "f1", vec![], sc("v1")), I::ApMap { key: Arg::Str("1".into()), value: var("v1"), map: "%m".into() }),
+            seq(seq(call("B", "f2", vec![], sc("v2")), I::ApMap { key: Arg::Num(1), value: var("v2"), map: "%m".into() }), seq(call("A", "f3", vec![], sc("v3")), I::ApMap { key: Arg::Str("k".into()), value: var("v3"), map: "%m".into() })),
+        );
+        out.push(Script { family: "MAP".into(), name: sname(&["MAP", "ABA", "string-1-and-number-1", "seq", cn]), ast: seq(ws, c), peers: peers3() });
+    }
     out
 }
 
